@@ -41,10 +41,10 @@ Options ==
    O("-aspect", <<"2", "0.5">>, "aspect", <<"2", "0.5">>, {"xlim", "ylim", "xticks", "yticks", "xticklabels", "yticklabels"}),
    O("-fs", <<"10,4", "3,7">>, "figsize", <<"10,4", "3,7">>, {"pixels", "xticks", "yticks", "xticklabels", "yticklabels"}),
    O("-dpi", <<"50", "200">>, "dpi", <<"50", "200">>, {}),
-   O("-left", <<"0.2", "0.3">>, "left", <<"0.2", "0.3">>, {"pixels"}),
+   O("-left", <<"0.2", "0">>, "left", <<"0.2", "0">>, {"pixels"}),
    O("-right", <<"0.8", "0.7">>, "right", <<"0.8", "0.7">>, {"pixels"}),
    O("-top", <<"0.8", "0.85">>, "top", <<"0.8", "0.85">>, {"pixels"}),
-   O("-bottom", <<"0.2", "0.25">>, "bottom", <<"0.2", "0.25">>, {"pixels"}),
+   O("-bottom", <<"0.2", "0">>, "bottom", <<"0.2", "0">>, {"pixels"}),
    O("-nomargin", <<>>, "margins", <<"none">>, {"left", "right", "top", "bottom", "pixels"}),
    O("-a", <<>>, "annotations", <<"shown">>, {"afs", "annotationfields"}),
    O("-afs", <<"14", "5">>, "afs", <<"14", "5">>, {}),
@@ -77,6 +77,9 @@ Consistent(S) == /\ \A a, b \in S : a # b => a.flag # b.flag
                  /\ ~(\E a, b \in S : a.flag = "-nomargin" /\ b.flag \in Margins)
                  /\ ~(\E a, b \in S : a.flag = "-legfs" /\ a.k = 2 /\ b.flag \in {"-leg", "-legloc"})      \* -legfs 0 hides the legend
                  /\ ~(\E a, b \in S : a.flag = "-nogrid" /\ b.flag \in {"-gc", "-gs", "-gw"})
+\* The written image is the whole figure (figsize x dpi pixels) as soon as any margin is given explicitly -- whatever its value, 0
+\* included -- and is cropped to the tight bounding box of its contents otherwise.
+CropOf(S) == IF \E ch \in S : ch.flag \in Margins THEN "full" ELSE "tight"
 \* Independent: the expected value of a property depends only on the choice made for its own option
 Independent(S, T) == \A p \in Owned(S) \cap Owned(T) :
                         (\E ch \in S \cap T : OptionOf(ch.flag).prop = p) => ExpectedOf(S)[p] = ExpectedOf(T)[p]
